@@ -38,11 +38,22 @@ def observed(doc):
     return parents
 
 
+_fn_counter = itertools.count(1)
 CONTAINERS = {
     "quote": lambda h: "> " + h + "\n>\n> text\n",
     "list": lambda h: "- " + h + "\n\n  text\n",
     "directive": lambda h: "```{note}\n" + h + "\n\nbody\n```\n",
     "colon": lambda h: ":::{tip}\n" + h + "\n:::\n",
+    # directives whose own node is a structural / body element of another kind: still no section inside
+    "topic": lambda h: "```{topic} T\n" + h + "\n\nbody\n```\n",
+    "sidebar": lambda h: "```{sidebar} T\n" + h + "\n\nbody\n```\n",
+    "admonition": lambda h: "```{admonition} T\n" + h + "\n\nbody\n```\n",
+    "container": lambda h: "```{container} c\n" + h + "\n\nbody\n```\n",
+    "epigraph": lambda h: "```{epigraph}\n" + h + "\n\nbody\n```\n",
+    "compound": lambda h: "```{compound}\n" + h + "\n\nbody\n```\n",
+    "table-cell": lambda h: "```{list-table}\n* - x\n  - " + h + "\n```\n",
+    "footnote": lambda h: (lambda n: f"fn[^f{n}]\n\n[^f{n}]: note\n\n    " + h + "\n")(next(_fn_counter)),   # (a label of its own per use)
+    "deflist-like": lambda h: "1. item\n\n   " + h + "\n",
 }
 
 
@@ -139,6 +150,31 @@ def check_match_titles(col, levels, at, inner_level):
                  function="myst_parser.mdit_to_docutils.base:DocutilsRenderer.nested_render_text")
 
 
+def check_include_offset(col, levels, k, d):
+    """An included file's headings, shifted by :heading-offset: k, nest like the shifted levels of the reference model (no clamping:
+    a deeper level stays deeper)."""
+    import os
+
+    from docutils import nodes
+
+    inc = ""
+    for i, lv in enumerate(levels):
+        inc += "#" * lv + f" h{i}\n\npara {i}\n\n"
+    open(os.path.join(d, "inc.md"), "w").write(inc)
+    text = "```{include} inc.md\n:heading-offset: %d\n```\n" % k
+    case = {"include_levels": list(levels), "heading_offset": k}
+    doc, lines = parse(text, {"doctitle_xform": False}, source_path=os.path.join(d, "index.md"))
+    want_par, want_warn = model([lv + k for lv in levels])
+    got = observed(doc)
+    if got != want_par:
+        col.fail("C05.include-offset-nesting", case, f"section parents {got!r}, reference model for the shifted levels {want_par!r}",
+                 function="myst_parser.mdit_to_docutils.base:DocutilsRenderer.render_heading")
+    nwarn = sum(1 for ln in lines if "[myst.header]" in ln)
+    if nwarn != want_warn:
+        col.fail("C05.include-offset-warnings", case, f"{nwarn} [myst.header] warnings, expected {want_warn}: {lines!r}",
+                 function="myst_parser.mdit_to_docutils.base:DocutilsRenderer.render_heading")
+
+
 def run(tier, seed, extra):
     col = Collector("C05", extra.get("known", ()))
     rng = random.Random(seed)
@@ -167,6 +203,35 @@ def run(tier, seed, extra):
                   f"{cnt} documents (seed {seed})", cnt, time.time() - t0)
     t0 = time.time()
     cnt = 0
+    for kind in sorted(CONTAINERS):
+        for lv in range(1, 7):
+            col.case(("container", kind, lv))
+            check_levels(col, [1, 2], {0: CONTAINERS[kind]("#" * lv + " nested")})
+            cnt += 1
+    col.add_bound("a heading inside every kind of container is a rubric, not a section", f"{len(CONTAINERS)} containers x levels 1..6", cnt, time.time() - t0)
+    import shutil
+    import tempfile
+
+    t0 = time.time()
+    cnt = 0
+    d = tempfile.mkdtemp(prefix="c05-")
+    try:
+        for k in range(0, 6):
+            for levels in itertools.product(range(1, 7), repeat=2):
+                col.case(("include-offset", k, levels))
+                check_include_offset(col, levels, k, d)
+                cnt += 1
+        for _ in range(40 if tier == "quick" else 1500):
+            levels = [rng.randint(1, 6) for _ in range(rng.randint(1, 6))]
+            k = rng.randint(0, 6)
+            col.case(("include-offset", k, tuple(levels)))
+            check_include_offset(col, levels, k, d)
+            cnt += 1
+    finally:
+        shutil.rmtree(d, ignore_errors=True)
+    col.add_bound("{include} :heading-offset: k nests the file's headings like the shifted levels", "all level pairs over 1..6 x offsets 0..5, plus random sequences", cnt, time.time() - t0)
+    t0 = time.time()
+    cnt = 0
     for levels in itertools.product(range(1, 4), repeat=3):
         for at in range(3):
             for inner in (1, 2, 3, 4):
@@ -179,6 +244,15 @@ def run(tier, seed, extra):
 
 
 def replay(col, case, check):
+    if "include_levels" in case:
+        import shutil
+        import tempfile
+
+        d = tempfile.mkdtemp(prefix="c05-")
+        try:
+            return check_include_offset(col, case["include_levels"], case["heading_offset"], d)
+        finally:
+            shutil.rmtree(d, ignore_errors=True)
     if "match_titles_at" in case:
         return check_match_titles(col, case["levels"], case["match_titles_at"], case["inner_level"])
     check_levels(col, case["levels"], {int(k): v for k, v in (case.get("blocks") or {}).items()} or None)
